@@ -114,6 +114,12 @@ NEEDS = {
  "C16-m12": ("CalTRACK-hourly ModelMetrics on usage of both signs (abs of the mean instead of mean of abs)", "caltrack_metrics/variants (ModelMetrics against exact rational arithmetic)"),
  "C20-m9": ("requested start/end less than 24 h outside the data (gap tests on timedelta.days)", "time shim: timedelta.days / total_seconds / comparisons (the changed code could not be executed in the shim: trace-validation mismatch, exit 3)"),
  "C20-m10": ("a selection that has rows but no values (emptiness tested before dropna)", None),
+ "C04-m11": ("reporting zone whose UTC offset equals the baseline zone's on the first reporting day only (America/Denver vs America/Phoenix in January)", None),
+ "C04-m12": ("settings profile cvrmse_threshold=0 (zero read as 'no threshold')", None),
+ "C08-m11": ("sub-daily readings on a DST transition day (coverage denominator constant 1440 minutes)", None),
+ "C08-m12": ("billing period containing a DST transition (atomic_freq='1D' spread)", None),
+ "C12-m11": ("two-slope smoothed fit reduced to one slope with the surviving smoothing fraction strictly between 0 and 0.01 (get_k without the 1% cut-off)", None),
+ "C12-m12": ("unsmoothed cooling-only component whose balance point lies on/below the lower segment limit (stored as T_min instead of T_min_seg); visible only when the stored coefficients are read WITHOUT the documented end-pinning - eval() and _predict_submodel clamp the balance point back, and the solver shows kept == scored == predicted for every value with the change applied: judged equivalent under the library's evaluation, kept for the record", None),
  "C16-m10": ("two model objects in one process (one error dict shared through a module constant)", "objects/*"),
 }
 rows = []
